@@ -9,17 +9,17 @@ An operation with target path `p` performs `ensureDir` on the proper prefixes of
 final effect at `p`.
 -/
 import Goat.Model.MemFSConc
+import Goat.Spec.FS
 
 set_option linter.unusedSimpArgs false
 
 namespace Goat.MemFSConc
 
-inductive Entry where
-  | dir
-  | file (v : Data)
-  deriving DecidableEq
+/-- the abstract tree is the one of the sequential specification (`Goat/Spec/FS.lean`): what stands at
+each path, `none` = nothing -/
+abbrev Entry := Goat.FS.Entry
 
-abbrev Tree := Path → Option Entry
+abbrev Tree := Goat.FS.State
 
 inductive Eff1 where
   | ensureDir (p : Path)
